@@ -49,6 +49,9 @@ func genMocks(c *Ctx) {
 	// a mock rendered after a later mock's imports were registered still prints through the registry's own
 	// *Package values (no stale copies: G-SCOPE/element-address, G-VARNAME)
 	gen.CheckVarNameOwners(c.Run, c.Prog)
+	// names and conflict marks of one method (of one mock) do not reach the next: every MethodScope call
+	// hands out an empty scope (G-SCOPE/fresh-scope, with the rest of the naming scenarios)
+	namesTables(c, nil, false, false)
 }
 
 func genCompile(c *Ctx) {
